@@ -15,6 +15,8 @@ from props.codec_common import CODEC_TRUSTED
 
 THEOREMS = ["C12_record_roundtrip", "C12_record_layout", "C12_status_report_bundle", "C12_status_report_bundle_total",
             "C12_fragment_unimplemented", "C12_no_report_to_panics"]
+REPEAT = 2            # case lines repeated 66 000 times on one thread (state that builds up over many calls)
+REPEAT_CMDS = ('ADMENC', 'ADMDEC')
 RELEASE = True
 OFFSET = 946684800000
 U32 = 2 ** 32
